@@ -48,6 +48,26 @@ class Dag:
         """node: an expression whose proper subexpressions are already leaves / symbols -> symbol Name"""
         if _is_leaf(node):
             return node
+        # projection of a tuple built in the same function (`(a, b)[0]`, also through a join of several tuples - the
+        # return value of an inlined helper with several exits) is the component itself
+        if isinstance(node, ast.Subscript) and isinstance(node.slice, ast.Constant) and isinstance(node.slice.value, int) \
+                and not isinstance(node.slice.value, bool) and isinstance(node.value, ast.Name):
+            k = node.slice.value
+            d = self.defs.get(node.value.id)
+            if isinstance(d, ast.Tuple) and -len(d.elts) <= k < len(d.elts) and not any(isinstance(x, ast.Starred) for x in d.elts):
+                return d.elts[k]
+            if isinstance(d, ast.Call) and isinstance(d.func, ast.Name) and d.func.id == "PHI" and d.args:
+                parts = [self.defs.get(a.id) if isinstance(a, ast.Name) else None for a in d.args]
+                if all(isinstance(p, ast.Tuple) and -len(p.elts) <= k < len(p.elts) and not any(isinstance(x, ast.Starred) for x in p.elts) for p in parts):
+                    els = [p.elts[k] for p in parts]
+                    uniq = []
+                    for x in els:
+                        if ast.dump(x) not in [ast.dump(u) for u in uniq]:
+                            uniq.append(x)
+                    if len(uniq) == 1:
+                        return uniq[0]
+                    uniq.sort(key=self._ident)
+                    return self.intern(ast.Call(func=ast.Name(id="PHI", ctx=ast.Load()), args=uniq, keywords=[]))
         key = ast.dump(node)
         s = self.key2sym.get(key)
         if s is None:
